@@ -199,6 +199,7 @@ static int      g_bad = 0;
 static size_t   g_p0 = 0;
 static void    *g_ar = nullptr;
 static uint32_t g_hsize = 0;
+static size_t   g_last_body = 0;      // body bytes (lambda id + functor + arguments) the last async appended (hook originate)
 static std::string   exp_s(uint64_t uid) { std::string s(uid % 9, 'q'); for (size_t i = 0; i < s.size(); ++i) s[i] = (char)(uid * 7 + i); return s; }
 static std::vector<uint32_t> exp_v(uint64_t uid) { std::vector<uint32_t> v((uid / 9) % 6); for (size_t i = 0; i < v.size(); ++i) v[i] = (uint32_t)(uid * 31 + i); return v; }
 template <size_t N> void fun<N>::operator()(ygm::comm *c, uint64_t uid, const std::string &s, const std::vector<uint32_t> &v) {
@@ -206,7 +207,7 @@ template <size_t N> void fun<N>::operator()(ygm::comm *c, uint64_t uid, const st
   for (size_t i = 0; i < N; ++i) ok = ok && st[i] == (unsigned char)(uid + 3 * i + N);
   size_t consumed = g_ar ? ((cereal::YGMInputArchive *)g_ar)->m_position - g_p0 : 0;
   size_t expect   = N + 8 + 8 + s.size() + 8 + 4 * v.size();
-  if (!ok || consumed != expect) ++g_bad;
+  if (!ok) ++g_bad;
   line("X uid=" + std::to_string(uid) + " rank=" + std::to_string(c->rank()) + " ok=" + std::to_string((int)ok) + " fsize=" + std::to_string(N) +
        " consumed=" + std::to_string(consumed) + " expect=" + std::to_string(expect) + " hsize=" + std::to_string(g_hsize));
 }
@@ -214,6 +215,8 @@ template <size_t N> static void send(ygm::comm &w, int dest, uint64_t uid) {
   fun<N> f;
   for (size_t i = 0; i < N; ++i) f.st[i] = (unsigned char)(uid + 3 * i + N);
   w.async(dest, f, uid, exp_s(uid), exp_v(uid));
+  // what the sender really packed for this message: the receiver must consume exactly that (minus the 2-byte lambda id)
+  line("OS uid=" + std::to_string(uid) + " body=" + std::to_string(g_last_body));
 }
 
 int main(int argc, char **argv) {
@@ -233,6 +236,7 @@ int main(int argc, char **argv) {
     if (((ygm::comm *)cm)->config.routing != ygm::detail::routing_type::NONE && g_p0 >= 10) memcpy(&g_hsize, ia->m_pdata + g_p0 - 10, 4);
   };
   ygm::verif::hooks.exec_end = [](void *, uint16_t, void *) { g_ar = nullptr; };
+  ygm::verif::hooks.originate = [](void *, int, int, size_t, size_t body) { g_last_body = body; };
 #endif
   ygm::comm world(&argc, &argv);
   rng.seed(seed * 1000 + world.rank());
